@@ -16,11 +16,13 @@ from mcx.explore import explore
 from mcx.seams import owned_random
 
 DISPL = ('generic', 'along_bond', 'tiny', 'large')
-TABLES = ('geom', 'fixed')
+TABLES = ('geom', 'fixed', 'geom_rev')      # geom_rev: neighbour lists in reverse (descending) order
 
 
 def bonds_table(n, edges, pos, table):
     info = {i: [] for i in range(n)}
+    if table.endswith('_rev'):
+        return {i: v[::-1] for i, v in bonds_table(n, edges, pos, table[:-4]).items()}
     for a, b in edges:
         if table == 'geom':
             ln = float(np.linalg.norm(pos[a] - pos[b]))
@@ -53,7 +55,7 @@ class C07(Check):
     technique = ('exhaustive enumeration of all labelled trees / connected graphs x moved atom x displacement '
                  'alphabet on the real move_mol_atom; stateless choice-point exploration of the owned random draws')
     level_text = ('every labelled tree up to 6 (quick) / 7 (thorough) atoms, every moved atom, 4 displacement '
-                  'classes, 2 bond tables, forests, every connected cyclic graph up to 5/6 vertices, 20/60-atom '
+                  'classes, 3 bond tables (geometry, fixed, geometry with descending neighbour lists), a table edited in place between two moves, forests, every connected cyclic graph up to 5/6 vertices, 20/60-atom '
                   'families, and every answer of the random draws of find_atom_random_displ are executed on the '
                   'real code; a coverage statement over that finite space, not a proof for all reals')
     level_note = ('trusted: numpy arithmetic, the Pruefer/graph enumerators (self-tested against closed-form counts), '
@@ -89,6 +91,9 @@ class C07(Check):
         for n in range(2, 6):
             u.append({'k': 'displ', 'n': n})
         u.append({'k': 'randatom'})
+        u.append({'k': 'edit', 'nmax': 5})
+        self.bounds['table_edit_history'] = ('every tree up to 5 atoms x every moved atom: move, then the SAME table '
+                                             'object is edited in place (all lengths x 1.25), move again')
         return u
 
     def cases(self, unit, tier, seed):
@@ -128,10 +133,15 @@ class C07(Check):
             for edges in en.all_trees(n):
                 for sigma in (0.1, 0.5, 2.0):
                     yield {'k': 'displ', 'n': n, 'edges': edges, 'sigma': sigma}
+                yield {'k': 'displ', 'n': n, 'edges': edges, 'sigma': 0.5, 'table': 'geom_rev'}
             if n >= 4:      # cyclic graphs give atoms with >=3 neighbours in other orders
                 for edges in en.connected_graphs(n):
                     if len(edges) > n - 1 and n == 4:
                         yield {'k': 'displ', 'n': n, 'edges': edges, 'sigma': 0.5}
+        elif k == 'edit':
+            for n in range(2, unit['nmax'] + 1):
+                for edges in en.all_trees(n):
+                    yield {'k': 'edit', 'n': n, 'edges': edges}
         elif k == 'randatom':
             for n in (2, 3, 4):
                 for edges in en.all_trees(n):
@@ -195,8 +205,10 @@ class C07(Check):
                            cls=f"{case.get('fam') or ('cyclic' if case.get('cyclic') else 'tree')}/n{n}/{case['table']}/{dk}")
                     if sig:
                         R.violation(sig, cdesc, det)
+        elif case['k'] == 'edit':
+            self._edit(case, R, pos, edges, move_mol_atom)
         elif case['k'] == 'displ':
-            info = bonds_table(n, edges, pos, 'geom')
+            info = bonds_table(n, edges, pos, case.get('table', 'geom'))
             atoms = [case['atom']] if 'atom' in case else range(n)
             for atom in atoms:
                 self._displ(case, R, pos, info, atom, find_atom_random_displ)
@@ -235,6 +247,25 @@ class C07(Check):
             st = explore(run, None, on_exec)
             if len(set(picked)) != n:
                 R.violation('randatom/not-every-atom-reachable', case, sorted(set(picked)))
+
+    def _edit(self, case, R, pos, edges, move_mol_atom):
+        """History on one bond table object: move, edit the table in place, move again."""
+        n = case['n']
+        d = np.array([0.13, -0.21, 0.08])
+        for atom in ([case['atom']] if 'atom' in case else range(n)):
+            cdesc = dict(case, atom=atom)
+            info = bonds_table(n, edges, pos, 'geom')
+            move_mol_atom(pos, info, atom, d.copy())
+            for k in list(info):
+                info[k] = [(j, ln * 1.25) for j, ln in info[k]]      # same dict object, new lengths
+            out = move_mol_atom(pos, info, atom, d.copy())
+            bad = [(a, b) for a, b in edges
+                   if abs(np.linalg.norm(out[a] - out[b]) - dict(info[a])[b]) > 1e-9 * dict(info[a])[b]]
+            R.case(cdesc, nontrivial=True, cls=f'table-edited-in-place/n{n}', outcome='second-move-after-table-edit')
+            if not np.all(np.isfinite(out)):
+                R.violation('move-after-table-edit/non-finite', cdesc, out.tolist())
+            elif bad:
+                R.violation('move-after-table-edit/bond-not-the-length-now-in-the-table', cdesc, str(bad[:3]))
 
     def _displ(self, case, R, pos, info, atom, fn):
         n = case['n']
